@@ -285,9 +285,14 @@ pub fn run_c01(ctx: &mut Ctx) {
             longs.push(vec![b'-'; 1_000_000]);
             longs.push(vec![0xff; 100_000]);
             for v in &longs {
-                mon::begin_case(&v[..v.len().min(64)]);
                 ctx.count("long-inputs");
-                drive(ctx, &mut tally, &all, v, &mut tagged);
+                for ep in &all {
+                    // one watchdog case per entry point, with a 60x CPU budget: these inputs are there to
+                    // expose stack overflows and panics; a correct super-linear algorithm must not be
+                    // reported as a hang (that verdict is decided on inputs of <= 96 bytes)
+                    mon::begin_case_scaled(&v[..v.len().min(64)], 60);
+                    drive(ctx, &mut tally, &[*ep], v, &mut tagged);
+                }
             }
             mon::idle();
         }
